@@ -362,4 +362,224 @@ theorem runTW_eq {w : Nat} {c : Cfg} (hN : c.N < 2 ^ w) : ∀ (ops : List (Op ×
     simp only [bind, Except.bind]
     exact ih m1 _ h2
 
+/-! ## 3. the event-trace ledger over histories with both kinds of throw -/
+
+theorem eraseX_replay {trk : Bool} {v v' : SVec} {i j a : Nat} {tr : Tr} {t : Bool}
+    (h : eraseX trk v i j a = .ok (v', tr, t)) : UReplay v v' tr := by
+  unfold eraseX at h
+  split at h
+  · cases h; exact ureplay_nil v
+  · obtain ⟨⟨s1, t1, tt⟩, h1, h⟩ := bind_ok h
+    rw [shiftLoopX_eq] at h1
+    cases hq : shiftLoop trk (min (v.size - j) a) j i v.slots with
+    | error e => rw [hq] at h1; cases h1
+    | ok q =>
+      obtain ⟨q1, q2⟩ := q
+      rw [hq] at h1
+      simp only [Except.map, Except.ok.injEq, Prod.mk.injEq] at h1
+      obtain ⟨e1, e2, e3⟩ := h1
+      subst e1 e2
+      have a1 : UReplay v ⟨q1, v.size⟩ q2 := shiftLoop_replay trk _ _ _ _ _ _ hq
+      cases tt with
+      | true =>
+        simp only [if_true, pure, Except.pure, Except.ok.injEq, Prod.mk.injEq] at h
+        obtain ⟨r1, r2, _⟩ := h
+        subst r1 r2
+        exact a1
+      | false =>
+        simp only [Bool.false_eq_true, if_false] at h
+        obtain ⟨⟨s2, t2⟩, h2, h⟩ := bind_ok h
+        cases h
+        exact ureplay_trans a1 (destroyLoop_replay _ _ _ _ _ h2)
+
+theorem stepT_replay {c : Cfg} {m : Mach} {sp : SpecRegs} (hinv : MInv c m sp) {op : Op} {b a : Nat} {m' : Mach}
+    {res : Res} {t : Bool} (h : stepT c m op b a = .ok (m', res, t)) : StepReplay m m' res := by
+  cases op with
+  | erase r i j =>
+    simp only [stepT] at h
+    by_cases hk : r < c.K ∧ c.port = false
+    · cases hm : m.regs r with
+      | none => simp [hk, hm] at h; obtain ⟨rfl, rfl, _⟩ := h; rfl
+      | some v =>
+        simp only [hk, hm, decide_true, and_self] at h
+        by_cases hij : i ≤ j ∧ j ≤ v.size
+        · simp only [hij, and_self, if_true] at h
+          obtain ⟨⟨v', tr, tt⟩, h1, h2⟩ := bind_ok h
+          cases h2
+          simp only [StepReplay, Mach.log]
+          rw [eraseX_replay h1 (occR m.regs) r r (occR_some hm), occR_set_some]
+        · simp only [hij, if_false] at h
+          cases h; rfl
+    · simp [hk] at h; obtain ⟨rfl, rfl, _⟩ := h; rfl
+  | new r => exact stepX_replay hinv (b := b) (op := .new r) h
+  | copy r s => exact stepX_replay hinv (b := b) (op := .copy r s) h
+  | move r s => exact stepX_replay hinv (b := b) (op := .move r s) h
+  | range r xs => exact stepX_replay hinv (b := b) (op := .range r xs) h
+  | il r xs => exact stepX_replay hinv (b := b) (op := .il r xs) h
+  | acopy r s => exact stepX_replay hinv (b := b) (op := .acopy r s) h
+  | amove r s => exact stepX_replay hinv (b := b) (op := .amove r s) h
+  | push r x => exact stepX_replay hinv (b := b) (op := .push r x) h
+  | emplace r x => exact stepX_replay hinv (b := b) (op := .emplace r x) h
+  | resize r n => exact stepX_replay hinv (b := b) (op := .resize r n) h
+  | clear r => exact stepX_replay hinv (b := b) (op := .clear r) h
+  | del r => exact stepX_replay hinv (b := b) (op := .del r) h
+  | finish => exact stepX_replay hinv (b := b) (op := .finish) h
+
+/-- all lifetime events of a history with both kinds of throw, in order -/
+def runEvT (c : Cfg) : List (Op × Nat × Nat) → Mach → Except Fault (Mach × List GEv)
+  | [], m => .ok (m, [])
+  | (op, b, a) :: ops, m => do
+      let (m', res, _) ← stepT c m op b a
+      let (m'', evs) ← runEvT c ops m'
+      pure (m'', res.getD [] ++ evs)
+
+theorem runEvT_replays {c : Cfg} : ∀ (ops : List (Op × Nat × Nat)) (m : Mach) (sp : SpecRegs), MInv c m sp →
+    ∃ m' evs, runEvT c ops m = .ok (m', evs) ∧ runT c ops m = .ok m' ∧ MInv c m' (specRunT c ops sp) ∧
+      replayG evs (occR m.regs) = some (occR m'.regs) := by
+  intro ops
+  induction ops with
+  | nil => intro m sp h; exact ⟨m, [], rfl, rfl, h, rfl⟩
+  | cons opb ops ih =>
+    obtain ⟨op, b, a⟩ := opb
+    intro m sp h
+    obtain ⟨m1, res, h1, h2⟩ := stepT_refines h op b a
+    have hr := stepT_replay h h1
+    obtain ⟨m', evs, g1, g0, g2, g3⟩ := ih m1 _ h2
+    refine ⟨m', res.getD [] ++ evs, by simp [runEvT, h1, g1, bind, Except.bind, pure, Except.pure],
+      by simp [runT, h1, g0, bind, Except.bind], g2, ?_⟩
+    rw [replayG_append]
+    cases hres : res with
+    | none =>
+      rw [hres] at hr
+      simp only [StepReplay] at hr
+      simp only [Option.getD, replayG, Option.bind]
+      rw [← hr]; exact g3
+    | some ev =>
+      rw [hres] at hr
+      simp only [StepReplay] at hr
+      simp only [Option.getD, hr, Option.bind]
+      exact g3
+
+/-! ## 4. element destructors that throw -/
+
+theorem destroyLoopD_nothrow : ∀ (k pos : Nat) (s : Slots) (d : Nat), k ≤ d →
+    destroyLoopD k pos s d = (destroyLoop k pos s).map (fun q => (q.1, q.2, false)) := by
+  intro k
+  induction k with
+  | zero => intro pos s d _; simp [destroyLoopD, destroyLoop, Except.map]
+  | succ k ih =>
+    intro pos s d hd
+    cases d with
+    | zero => omega
+    | succ d =>
+      simp only [destroyLoopD, destroyLoop, bind, Except.bind]
+      cases destroy s pos with
+      | error e => rfl
+      | ok s1 =>
+        simp only [ih (pos + 1) s1 d (by omega)]
+        cases destroyLoop k (pos + 1) s1 with
+        | error e => rfl
+        | ok q => simp [Except.map, pure, Except.pure]
+
+theorem destroyLoop_succ (k pos : Nat) (s : Slots) :
+    destroyLoop (k + 1) pos s = (do
+      let s ← destroy s pos
+      let (s, tr) ← destroyLoop k (pos + 1) s
+      pure (s, ⟨false, .dtor, pos⟩ :: tr)) := rfl
+
+theorem destroyLoopD_throw : ∀ (k pos : Nat) (s : Slots) (d : Nat), d < k →
+    destroyLoopD k pos s d = (destroyLoop (d + 1) pos s).map (fun q => (q.1, q.2, true)) := by
+  intro k
+  induction k with
+  | zero => intro pos s d hd; omega
+  | succ k ih =>
+    intro pos s d hd
+    cases d with
+    | zero =>
+      simp only [destroyLoopD, destroyLoop, bind, Except.bind]
+      cases destroy s pos with
+      | error e => rfl
+      | ok s1 => simp [Except.map, pure, Except.pure]
+    | succ d =>
+      rw [destroyLoop_succ]
+      simp only [destroyLoopD, bind, Except.bind]
+      cases destroy s pos with
+      | error e => rfl
+      | ok s1 =>
+        simp only [ih (pos + 1) s1 d (by omega)]
+        cases destroyLoop (d + 1) (pos + 1) s1 with
+        | error e => rfl
+        | ok q => simp [Except.map, pure, Except.pure]
+
+theorem clearD_nothrow (v : SVec) (d : Nat) (h : v.size ≤ d) :
+    clearD v d = (clear v).map (fun q => (q.1, q.2, false)) := by
+  simp only [clearD, clear, destroyLoopD_nothrow v.size 0 v.slots d h]
+  cases destroyLoop v.size 0 v.slots with
+  | error e => rfl
+  | ok q => simp [Except.map, bind, Except.bind, pure, Except.pure]
+
+/-- what `clear()` would do with an element destructor that throws at its `(d+1)`-th call:
+    `d + 1` elements are dead, `m_size` still counts all of them — no reference sequence
+    describes that state any more, and the container's own destructor destroys raw storage -/
+theorem clearD_throw_spec {N : Nat} {v : SVec} {es : List Elem} (h : Abs N v es) {d : Nat} (hd : d < es.length) :
+    ∃ v' tr, clearD v d = .ok (v', tr, true) ∧ v'.size = es.length ∧ nD tr = d + 1 ∧
+      (∀ p, p ≤ d → v'.slots[p]? = some .raw) ∧ (∀ es', ¬ Abs N v' es') ∧
+      destructor v' = .error .dtorRaw := by
+  have hs := h.size
+  obtain ⟨s', tr, h1, _, h3, h4, h5⟩ := destroyLoop_spec (d + 1) 0 v.slots (by
+    intro p _ hp
+    rw [h.pt p]; exact slotAt_obj (by omega))
+  have hraw : ∀ p, p ≤ d → s'[p]? = some .raw := by
+    intro p hp; rw [h5 p]; simp; omega
+  refine ⟨⟨s', v.size⟩, tr, ?_, hs, h3, hraw, ?_, ?_⟩
+  · simp [clearD, destroyLoopD_throw v.size 0 v.slots d (by omega), h1, Except.map, bind, Except.bind, pure, Except.pure]
+  · intro es' ha
+    have hlen : 0 < es'.length := by have := ha.size; simp only [] at this; omega
+    obtain ⟨e, he⟩ := slotAt_obj (N := N) hlen
+    have := ha.pt 0
+    simp only [] at this
+    rw [hraw 0 (by omega), he] at this
+    cases this
+  · obtain ⟨k, hk⟩ : ∃ k, v.size = k + 1 := ⟨v.size - 1, by omega⟩
+    simp [destructor, hk, destroyLoop, destroy, hraw 0 (by omega), bind, Except.bind]
+
+/-! ## 5. unbounded_array with element constructors / an allocator that throw -/
+
+theorem uCreateX_spec (n b : Nat) (al : Bool) :
+    ∃ a tr, uCreateX n b al = .ok (a, tr, !(al && decide (n ≤ b))) ∧
+      UAbs a (if al = true ∧ n ≤ b then List.replicate n 0 else []) ∧
+      nC tr = nD tr + (if al = true ∧ n ≤ b then n else 0) ∧ nC tr = (if al then min n b else 0) := by
+  cases al with
+  | false => exact ⟨⟨none, 0⟩, [], by simp [uCreateX], by simpa using uabs_nil, by simp [nC, nD], by simp [nC]⟩
+  | true =>
+    obtain ⟨s', tr, h1, h2, h3, h4, h5⟩ := valueInitLoop_spec (min n b) 0 (rawStore n) (by
+      intro p _ hp; rw [rawStore_getElem?]; simp; omega)
+    by_cases hb : n ≤ b
+    · have hmin : min n b = n := by omega
+      rw [hmin] at h1 h2 h5
+      have hdec : decide (b < n) = false := by simp; omega
+      refine ⟨⟨some s', n⟩, tr, ?_, ?_, by simp [hb, h2, h3], by simp [h2, hmin]⟩
+      · simp [uCreateX, valueInitLoopX_eq, hmin, h1, hdec, hb, Except.map, bind, Except.bind, pure, Except.pure]
+      · simp only [hb, and_self, if_true]
+        refine ⟨by simp, by simp [h4, rawStore], ?_⟩
+        intro p
+        simp only [uslots_some, h5 p, rawStore_getElem?, List.getElem?_replicate]
+        by_cases hp : p < n <;> simp [hp]
+    · have hmin : min n b = b := by omega
+      have hdec : decide (b < n) = true := by simp; omega
+      obtain ⟨s2, tr2, g1, g2, g3, _, _⟩ := destroyLoop_spec (min n b) 0 s' (by
+        intro p _ hp; rw [h5 p, if_pos (by omega)]; exact ⟨_, rfl⟩)
+      refine ⟨⟨none, 0⟩, tr ++ tr2, ?_, by simpa [hb] using uabs_nil, by simp [hb, h2, h3, g2, g3], by simp [h2, g2]⟩
+      simp [uCreateX, valueInitLoopX_eq, h1, hdec, hb, g1, Except.map, bind, Except.bind, pure, Except.pure]
+
+/-- `create_buffer` as it was (`m_size = size` before the loop, no guard): a throw at the second of two
+    constructions leaves `size() == 2` over a block whose slot 1 is raw, and the destructor destroys raw storage -/
+theorem uCreateXOrig_witness :
+    (match uCreateXOrig 2 1 with
+      | .ok (a, _, t) => decide (a = ⟨some [.obj (some 0), .raw], 2⟩) && t
+      | _ => false) = true ∧
+    (match uInvalidate ⟨some [.obj (some 0), .raw], 2⟩ with
+      | .error .dtorRaw => true
+      | _ => false) = true := by decide
+
 end Igris.C14
